@@ -8,6 +8,9 @@ pub mod c06;
 pub mod c07;
 pub mod c08;
 pub mod c09;
+#[cfg(feature = "crypto")]
+pub mod c11;
+pub mod c12;
 pub mod c13;
 pub mod c14;
 pub mod c15;
@@ -27,6 +30,9 @@ pub fn lookup(id: &str) -> Option<PropertyDef> {
 		"C07" => c07::def(),
 		"C08" => c08::def(),
 		"C09" => c09::def(),
+		#[cfg(feature = "crypto")]
+		"C11" => c11::def(),
+		"C12" => c12::def(),
 		"C13" => c13::def(),
 		"C14" => c14::def(),
 		"C15" => c15::def(),
@@ -36,4 +42,4 @@ pub fn lookup(id: &str) -> Option<PropertyDef> {
 	})
 }
 
-pub const ALL: &[&str] = &["C01", "C02", "C03", "C04", "C05", "C06", "C07", "C08", "C09", "C13", "C14", "C15", "C17", "C20"];
+pub const ALL: &[&str] = &["C01", "C02", "C03", "C04", "C05", "C06", "C07", "C08", "C09", "C11", "C12", "C13", "C14", "C15", "C17", "C20"];
